@@ -150,12 +150,13 @@ def jpat (tag len : Nat) : Bytes :=
     if i = 0 ∨ i + 1 = len then (34 : UInt8) else UInt8.ofNat (97 + (tag + i) % 26)
 
 /-- A frame of the correspondence family, described instead of materialised: what `MessageBuilder`
-is given (id, notify flag, query, body format; query format 1, ec 0) plus the kind, tag and length of
+is given (id, notify flag, query, query and body format; ec 0) plus the kind, tag and length of
 the pattern body.  Its length needs no bytes; its bytes are produced on demand. -/
 structure LFrame where
   id : Nat
   notify : Bool
   query : Bytes
+  qfmt : Nat
   bfmt : Nat
   json : Bool
   tag : Nat
@@ -166,13 +167,13 @@ def LFrame.body (f : LFrame) : Bytes := if f.json then jpat f.tag f.blen else pa
 def LFrame.len (f : LFrame) : Nat := 48 + f.query.length + f.blen
 
 def LFrame.header (f : LFrame) : Header :=
-  ((Builder.mk f.id f.notify 0 1 f.bfmt f.query []).build.header).patchLengths f.query.length f.blen
+  ((Builder.mk f.id f.notify 0 f.qfmt f.bfmt f.query []).build.header).patchLengths f.query.length f.blen
 
 def LFrame.bytes (f : LFrame) : Bytes := f.header.encode ++ f.query ++ f.body
 
 /-- The message `MessageBuilder::build` produces for this description. -/
 def LFrame.message (f : LFrame) : Message :=
-  (Builder.mk f.id f.notify 0 1 f.bfmt f.query f.body).build
+  (Builder.mk f.id f.notify 0 f.qfmt f.bfmt f.query f.body).build
 
 /-! ### changing the representation of frames (used to relate the driver's run to the theorems') -/
 
